@@ -313,6 +313,45 @@ int main(int argc, char** argv)
             const ref::Model* m = model_for(g.id);
             std::printf("MODEL %s states=%d rr_conflict=%d unresolved_sr=%d\n", g.id.c_str(), m->t.nstates, int(m->t.rr_conflict), m->t.unresolved_sr);
         }
+        // is the table the library constructed the canonical LR(1) table (up to state numbering)?
+        for (const FleetEntry& e : fleet())
+        {
+            if (std::string(e.value) != "node") continue;
+            const ref::Model* c = model_for(e.grammar);
+            const ref::Model* r = real_model_for(e.key);
+            if (!c || !r) continue;
+            std::vector<int> map(size_t(c->t.nstates), -1);
+            std::vector<int> todo{ 0 };
+            map[0] = 0;
+            std::string diff;
+            int paired = 0;
+            while (!todo.empty() && diff.empty())
+            {
+                int cs = todo.back(); todo.pop_back();
+                int rs = map[size_t(cs)];
+                ++paired;
+                auto pair = [&](int ct, int rt, const std::string& what)
+                {
+                    if (map[size_t(ct)] < 0) { map[size_t(ct)] = rt; todo.push_back(ct); }
+                    else if (map[size_t(ct)] != rt) diff = "state " + std::to_string(cs) + " " + what + ": targets do not correspond";
+                };
+                for (size_t t = 0; t < c->t.action[size_t(cs)].size() && diff.empty(); ++t)
+                {
+                    const ref::Action& ca = c->t.action[size_t(cs)][t];
+                    const ref::Action& ra = r->t.action[size_t(rs)][t];
+                    if (ca.k != ra.k || (ca.k == ref::Action::REDUCE && ca.arg != ra.arg))
+                        diff = "canonical state " + std::to_string(cs) + " / own state " + std::to_string(rs) + " term " + std::to_string(t) + ": canonical kind " + std::to_string(int(ca.k)) + " arg " + std::to_string(ca.arg) + ", own kind " + std::to_string(int(ra.k)) + " arg " + std::to_string(ra.arg);
+                    else if (ca.k == ref::Action::SHIFT) pair(ca.arg, ra.arg, "shift on term " + std::to_string(t));
+                }
+                for (size_t n = 0; n < c->t.go[size_t(cs)].size() && diff.empty(); ++n)
+                {
+                    int cg = c->t.go[size_t(cs)][n], rg = r->t.go[size_t(rs)][n];
+                    if ((cg < 0) != (rg < 0)) diff = "canonical state " + std::to_string(cs) + " goto on nterm " + std::to_string(n) + " differs";
+                    else if (cg >= 0) pair(cg, rg, "goto on nterm " + std::to_string(n));
+                }
+            }
+            std::printf("TABLE %s canonical_states=%d own_states=%d own_table_is_canonical=%d %s\n", e.grammar, c->t.nstates, r->t.nstates, int(diff.empty() && c->t.nstates == r->t.nstates), diff.c_str());
+        }
         return 0;
     }
 
